@@ -46,7 +46,10 @@ RULE = (
     "with at least one edge or a boundary probability / rejected parameter, plus distinct decode pairs"
 )
 ASSUMPTIONS = [
-    "admissible parameters only: p_type='degree' with n >= 1, ring lattices with n > d + l + k/2, sunflower with m > c and l >= 1, degree sequences with "
+    "ring_lattice / watts_strogatz_hypergraph: half of the cases keep n > d + l + k/2 (edge size exactly d, closed form for d = 2, l = 0); the other half wraps the ring "
+    "(n = 0..8 with shifts of n and more, negative shifts, rings smaller than an edge's reach): there only the exact node set 0..n-1, members being existing nodes, 1 <= size <= d "
+    "and (Watts-Strogatz) the lattice's edge count are demanded",
+    "admissible parameters only: p_type='degree' with n >= 1, sunflower with m > c and l >= 1, degree sequences with "
     "positive sum, m <= number of nodes for the configuration model; parameters for which the function raises its documented error are counted as rejected",
     "p = 0 clause: random()/geometric could in principle return exactly 0.0 (probability 2^-53); not distinguished",
     "uniform_HPPM: the two communities are contiguous label ranges; their order and the rounding of rho * n are not demanded (any of floor/ceil, either order)",
@@ -1471,6 +1474,9 @@ def floors(tier):
            "random_simplicial_complex": 150, "flag_complex": 80, "flag_complex_d2": 80, "random_flag_complex": 150, "random_flag_complex_d2": 150}
     for k, v in per.items():
         f[f"fn:{k}"] = v if q else 20 * v
+    for region in ("negative-l", "l>=n", "small-ring"):  # rings that wrap: node-set / member clauses only
+        f[f"ring_lattice:wrapping:{region}"] = 25 if q else 500
+        f[f"watts_strogatz_hypergraph:wrapping:{region}"] = 15 if q else 300
     f["clause:p=0"] = 300
     f["clause:p=1"] = 300
     f["clause:flag-exact"] = 300
